@@ -17,6 +17,7 @@ import (
 	"net"
 	"os"
 	"strconv"
+	"strings"
 	"sync"
 	"time"
 
@@ -528,6 +529,10 @@ func handshakeMode(seed int64, enc *json.Encoder) error {
 		ma, mb *lib.PeerMeta
 	}{{"honest", meta(1, 1), meta(1, 1)}, {"honest-2", meta(7, 3), meta(7, 3)}, {"other-network", meta(1, 1), meta(2, 1)}, {"other-chain", meta(1, 1), meta(1, 2)}} {
 		r := connect(ka, kb, sc.ma, sc.mb)
+		for try := 0; try < 3 && (r.ea != nil || r.eb != nil) && strings.HasPrefix(sc.name, "honest") &&
+			(strings.Contains(fmt.Sprint(r.ea), "timeout") || strings.Contains(fmt.Sprint(r.eb), "timeout")); try++ {
+			r = connect(ka, kb, sc.ma, sc.mb) // the handshake has a wall-clock timeout: on a loaded machine an honest pair may need another try
+		}
 		l := HsLine{Scenario: sc.name, Presented: "peer", Signer: "peer", OwnChal: true, SameConfig: sc.ma.NetworkId == sc.mb.NetworkId && sc.ma.ChainId == sc.mb.ChainId,
 			AAccepts: nameOf(pk(r.a), ka, kb, km), BAccepts: nameOf(pk(r.b), ka, kb, km)}
 		if r.ea != nil {
